@@ -225,7 +225,8 @@ func codecTransport(in tr.M, rng *rand.Rand) tr.M {
 		return tr.M{"detected": false, "herr": err.Error()}
 	}
 	senders, each := tr.Int(in["senders"]), tr.Int(in["each"])
-	ctx, cancel := context.WithTimeout(context.Background(), 10*time.Second)
+	// generous: only a real hang runs into it, never machine load
+	ctx, cancel := context.WithTimeout(context.Background(), 120*time.Second)
 	defer cancel()
 	var wg sync.WaitGroup
 	sizes := []int{8, 504, 508, 1024, 12}
